@@ -78,6 +78,21 @@ pub(crate) fn c11_loop_logic() {
     kani::assert(m.step_mode() == StepMode::Assembly, "C11.T.loop.mode-kept");
 }
 
+/// B.def — what the step loop takes as "instruction boundary": `is_instruction_done()` is true exactly
+/// when the word executed last is an instruction-fetch word — for every certified control state and
+/// whatever else is going on in the machine (pending key interrupt, pending wait, halted, ...).
+#[cfg_attr(kani, kani::proof)]
+pub(crate) fn c11_boundary_definition() {
+    let r = any_raw();
+    vassume(wf_raw(&r));
+    vassume(in_cert(maddr(&r), ir(&r)) || in_stuck(maddr(&r), ir(&r)));
+    vcover!(is_first_fetch(cur_word(&r)), "pre.at-a-fetch-word");
+    vcover!(!is_first_fetch(cur_word(&r)), "pre.inside-an-instruction");
+    vassert!(r.is_instruction_done() == is_first_fetch(cur_word(&r)), "C11.B.def.boundary-is-exactly-a-fetch-word-just-executed");
+    let m = mk_machine(r, any_step_mode());
+    vassert!(m.is_instruction_done() == is_first_fetch(cur_word(raw_of(&m))), "C11.B.def.machine-sees-the-same-boundary");
+}
+
 /// In the stuck set (undefined first byte) the second edge is a fixpoint: nothing changes any more.
 #[cfg_attr(kani, kani::proof)]
 pub(crate) fn c11_stuck_is_fixpoint() {
@@ -159,4 +174,4 @@ pub(crate) fn c11_loop_logic() {}
 #[cfg(not(kani))]
 pub(crate) fn c11_canary() {}
 
-crate::replay_table!(verif_replay_c11; c11_real_mode_is_one_edge, c11_loop_logic, c11_stuck_is_fixpoint, c11_stuck_step_returns, c11_x_loop_logic_long, c11_canary,);
+crate::replay_table!(verif_replay_c11; c11_boundary_definition, c11_real_mode_is_one_edge, c11_loop_logic, c11_stuck_is_fixpoint, c11_stuck_step_returns, c11_x_loop_logic_long, c11_canary,);
